@@ -163,6 +163,14 @@ def r4_random_names_not_captured(ctx) -> None:
             f.rule = "C20.R4"
     r.rule_counts["C20.R4"] = r.rule_counts.pop("C02.R4", 0)
     r.rule_text["C20.R4"] = "random identifiers (all '_'-prefixed) cannot be captured by rule selectors: " + r.rule_text.pop("C02.R4")
+    # whether a filter's patterns capture foreign detections must not depend on the draw: a prefix that names of the
+    # rule already start with is drawn again (shared with C11.R5)
+    probs = c02.prefix_redraw_failures(ctx)
+    fa = prog.func("sigma.filters.SigmaFilter.apply_on_rule")
+    if probs:
+        r.violation("C20.R4", fa.qual, "prefix collision", probs[0] + (f" (+{len(probs) - 1} more scenario(s))" if len(probs) > 1 else ""), fa.loc)
+    else:
+        r.ok("C20.R4", fa.qual, "a colliding draw is repeated: the result does not depend on which prefix was drawn", fa.loc)
     # the drawn names do start with '_'
     import ast as _ast
     for fn, const, node in (("sigma.filters.SigmaFilter.apply_on_rule", "_filt_", prog.func("sigma.filters.SigmaFilter.apply_on_rule").node),
